@@ -42,13 +42,116 @@ theorem outcomes_clear_mark : ∀ (w : Status),
     Status.has (failureStatus .port w) Status.portRetry = false := by
   decide
 
-/-- servers carrying a mark are skipped by refresh, revival and re-submission: the selections exclude them -/
-theorem marked_are_skipped : ∀ (w : Status),
-    (Status.has w Status.detailsRetry = true → Status.hasAny w Status.detailsRetry = true) ∧
-    (Status.has w Status.portRetry = true → Status.hasAny w (Status.port ||| Status.portRetry) = true) ∧
-    (Status.has w Status.portRetry = true → Status.hasAny w (Status.portRetry ||| Status.detailsRetry) = true) ∧
-    (Status.has w Status.portRetry = true → Status.hasNone w (Status.port ||| Status.portRetry) = false) := by
+/-- the filter set `refreshservers.Execute` queries with (`refreshservers.go:62`:
+`WithStatus(ds.Port).NoStatus(ds.DetailsRetry)`) -/
+def refreshFS : FilterSet := { withStatus := Status.port, noStatus := Status.detailsRetry }
+
+/-- the filter set `reviveservers.Execute` queries with (`reviveservers.go:76-80`:
+`ActiveAfter(minScope).ActiveBefore(maxScope).NoStatus(ds.Port | ds.PortRetry)`) -/
+def reviveFS (minScope maxScope : Int) : FilterSet :=
+  { activeAfter := some minScope, activeBefore := some maxScope, noStatus := Status.port ||| Status.portRetry }
+
+/-- these are the filter sets the modelled use cases issue: the first call of `UC.refresh` / `UC.revive` is the
+filtered query with exactly them, and the probes are made from its reply only -/
+theorem usecases_filter_sets (m d lo hi minC maxC : Int) (draws : Nat → Int) :
+    (UC.refresh m d = .call (.filterServers refreshFS) fun r =>
+      match r with
+      | .error e => pure (.error (.repo e))
+      | .ok svrs => (enqueueAll (fun s => (⟨s.addr, s.queryPort, .details, 0, m⟩, none, some d)) svrs 0).bind fun n => pure (.ok n)) ∧
+    (UC.revive m lo hi minC maxC d draws = .call (.filterServers (reviveFS lo hi)) fun r =>
+      match r with
+      | .error e => pure (.error (.repo e))
+      | .ok svrs => (enqueueAll (fun s => (⟨s.addr, s.addr.port, .port, 0, m⟩,
+          some (selectCountdown minC maxC (draws s.addr.key)), some d)) svrs 0).bind fun n => pure (.ok n)) :=
+  ⟨rfl, rfl⟩
+
+/-- a status word with the details-retry bit fails refresh's `noStatus`; one with the port-retry bit fails revival's -/
+theorem mark_fails_noStatus : ∀ (w : Status),
+    (Status.has w Status.detailsRetry = true → Status.hasAny w refreshFS.noStatus = true) ∧
+    (Status.has w Status.portRetry = true → Status.hasAny w (Status.port ||| Status.portRetry) = true) := by
   decide
+
+/-- **servers carrying a retry mark are skipped by refresh, revival, re-submission and re-report** — stated on the filter
+sets and branches the use cases actually use (`usecases_filter_sets`):
+ 1. a row carrying `details_retry` does not satisfy refresh's filter (`refreshservers.go:62`), so no server in the reply of
+    refresh's query carries it;
+ 2. a row carrying `port_retry` does not satisfy revival's filter, whatever the scope window (`reviveservers.go:76-80`);
+ 3. `addserver.maybeDiscoverServer` for a stored record carrying either mark returns at once — `ServerHasDetails` (when it
+    also has details) or `ErrServerDiscoveryInProgress` — without any repository call (`addserver.go:116-126`);
+ 4. `reportserver.maybeDiscoverPort` for a record carrying `port_retry` returns at once (`reportserver.go:160`). -/
+theorem marked_are_skipped :
+    (∀ (row : SRow), Status.has row.svr.status Status.detailsRetry = true → refreshFS.pred row = false) ∧
+    (∀ (s : AbsState) (sv : Server), sv ∈ s.filter refreshFS → Status.has sv.status Status.detailsRetry = false) ∧
+    (∀ (lo hi : Int) (row : SRow), Status.has row.svr.status Status.portRetry = true → (reviveFS lo hi).pred row = false) ∧
+    (∀ (s : AbsState) (lo hi : Int) (sv : Server), sv ∈ s.filter (reviveFS lo hi) → Status.has sv.status Status.portRetry = false) ∧
+    (∀ (m : Int) (svr : Server), Status.hasAny svr.status (Status.portRetry ||| Status.detailsRetry) = true →
+      maybeDiscoverServer m svr = pure (.hasDetails svr) ∨ maybeDiscoverServer m svr = pure .inProgress) ∧
+    (∀ (m : Int) (svr : Server), Status.has svr.status Status.portRetry = true → maybeDiscoverPort m svr = pure ()) := by
+  have h1 : ∀ (row : SRow), Status.has row.svr.status Status.detailsRetry = true → refreshFS.pred row = false := by
+    intro row h
+    have := (mark_fails_noStatus row.svr.status).1 h
+    simp [FilterSet.pred, this]
+  have h3 : ∀ (lo hi : Int) (row : SRow), Status.has row.svr.status Status.portRetry = true → (reviveFS lo hi).pred row = false := by
+    intro lo hi row h
+    have := (mark_fails_noStatus row.svr.status).2 h
+    simp [FilterSet.pred, reviveFS, this]
+  have sel : ∀ (s : AbsState) (fs : FilterSet) (sv : Server), sv ∈ s.filter fs → ∃ row : SRow, row.svr = sv ∧ fs.pred row = true := by
+    intro s fs sv hsv
+    unfold AbsState.filter at hsv
+    simp only [List.mem_map, List.mem_filter] at hsv
+    obtain ⟨kv, ⟨_, hp⟩, rfl⟩ := hsv
+    exact ⟨kv.2, rfl, hp⟩
+  refine ⟨h1, ?_, h3, ?_, ?_, ?_⟩
+  · intro s sv hsv
+    obtain ⟨row, rfl, hp⟩ := sel s _ sv hsv
+    cases hm : Status.has row.svr.status Status.detailsRetry with
+    | false => rfl
+    | true => rw [h1 row hm] at hp; cases hp
+  · intro s lo hi sv hsv
+    obtain ⟨row, rfl, hp⟩ := sel s _ sv hsv
+    cases hm : Status.has row.svr.status Status.portRetry with
+    | false => rfl
+    | true => rw [h3 lo hi row hm] at hp; cases hp
+  · intro m svr h
+    unfold maybeDiscoverServer
+    by_cases hd : Status.has svr.status Status.details = true
+    · exact Or.inl (by rw [if_pos hd])
+    · exact Or.inr (by rw [if_neg hd, if_pos h])
+  · intro m svr h
+    have : Status.hasNone svr.status (Status.port ||| Status.portRetry) = false := by
+      revert h; generalize svr.status = w; revert w; decide
+    unfold maybeDiscoverPort
+    simp [this]
+
+/-- **re-submission of a marked server touches nothing**: when the record stored under the submitted address carries a retry
+mark, `addserver.Execute` leaves registry, instance table and queue exactly as they were — run to completion, stopped
+anywhere, or with its lookup failing — in particular it enqueues no second probe and cannot clear the mark -/
+theorem addServer_marked_noop (z : Fields) (m : Int) (a : Addr) (s : AbsState) (now : Int) (row : SRow)
+    (hrow : s.getRow a = some row)
+    (hmark : Status.hasAny row.svr.status (Status.portRetry ||| Status.detailsRetry) = true) :
+    ((UC.addServer z m a).run s now).1 = s ∧ ∀ cs, (UC.addServer z m a).runChoices cs s now = s := by
+  have hget : s.get a = .ok row.svr := by unfold AbsState.get; rw [hrow]
+  have hk := marked_are_skipped.2.2.2.2.1 m row.svr hmark
+  constructor
+  · simp only [UC.addServer, Prog.run_call, Call.exec, hget]
+    rcases hk with hk | hk <;> rw [hk] <;> rfl
+  · intro cs
+    cases cs with
+    | nil => rfl
+    | cons c cs =>
+      cases c
+      · simp only [UC.addServer, Prog.runChoices, Call.exec, hget]
+        rcases hk with hk | hk <;> rw [hk] <;> cases cs <;> rfl
+      · simp only [UC.addServer, Prog.runChoices, Call.faultReply]
+        cases cs <;> rfl
+      · simp only [UC.addServer, Prog.runChoices, Call.faultReply, Call.exec]
+        cases cs <;> rfl
+
+/-- non-vacuity: `W.state` stores A with the port-retry mark: revival does not select it, re-submission is a no-op -/
+example : W.state.filter (reviveFS (-100) 100) = [] ∧ ((UC.addServer [] 2 W.A).run W.state 5).1.queue = [] := by
+  refine ⟨by decide, ?_⟩
+  have h := (addServer_marked_noop [] 2 W.A W.state 5 ⟨W.svr, 0⟩ (by decide) (by decide)).1
+  rw [h]; rfl
 
 /-- discovery marks only what it has just queued: after `maybeDiscoverPort` ran alone (no fault), the server is
 backed if the registry was — the enqueue precedes the mark -/
